@@ -633,9 +633,11 @@ example : ∀ p ∈ l2.index.reload.ids, p.fst < l2.index.reload.next := C04_ids
 example : Codec.decIsKey ⟨false, 1, -1⟩ 4591870180066957722 = true := by decide
 example : Codec.decIsKey ⟨false, 1, -1⟩ 4591870180066957723 = false := by decide
 example : Codec.decIsKey ⟨false, 1, -1⟩ 4591870180066957721 = false := by decide
-example : ¬ (Codec.decIsKey ⟨false, 1, -1⟩ ((4591870180066957722 : Nat) : Int) = true ∧
-    Codec.decIsKey ⟨false, 1, -1⟩ ((4591870180066957722 + 1 : Nat) : Int) = true) :=
-  C04_decimal_adjacent_excl_partial _ _ (by decide) (by decide) (by decide)
+example : ¬ (Codec.decIsKey ⟨false, 1, -1⟩ 4591870180066957722 = true ∧
+    Codec.decIsKey ⟨false, 1, -1⟩ (4591870180066957722 + 1) = true) :=
+  C04_decimal_adjacent_excl _ _ (by decide) (by decide)
+-- -0.1
+example : Codec.decIsKey ⟨true, 1, -1⟩ (-4591870180066957722) = true := by decide
 
 /-! ### C05 -/
 
